@@ -524,6 +524,106 @@ def run_impl(ctx, case, steps):
     return nontrivial
 
 
+# ---------------------------------------------------------------------------
+# small-scope exhaustive stream (model side: C17.Model.check_exh)
+
+EXH_KEYS = {'index': 0, 'a': 1, 'b': 2, 'results': 3, 'data': 4}
+ONES = [1, 1.0, True, 1]          # the colliding representatives of the value class "1", by item position
+EXH_QVALS = [None, True, 'x', 'zz']     # per key: not in the query / class 1 / 'x' / a value no item carries
+EXH_SUBSETS = [(), ('a',), ('b',), ('a', 'b')]
+
+
+def exh_queries():
+    for ka in EXH_QVALS:
+        for kb in EXH_QVALS:
+            kwargs = {}
+            if ka is not None:
+                kwargs['a'] = ka
+            if kb is not None:
+                kwargs['b'] = kb
+            for incl in EXH_SUBSETS:
+                for excl in EXH_SUBSETS:
+                    yield incl, excl, kwargs
+
+
+def exh_lists(maxlen):
+    '''all item lists of length <= maxlen; an item = (value of a, value of b), each absent / 1 / 'x' '''
+    import itertools
+    opts = [(va, vb) for va in (None, 1, 'x') for vb in (None, 1, 'x')]
+    for n in range(maxlen + 1):
+        yield from itertools.product(opts, repeat=n)
+
+
+def run_exhaustive(ctx, maxlen, stride, shards):
+    '''every list (every `stride`-th one of the longest length when stride > 1) x both data keys x ALL
+    queries; returns the number of (list, data key, query) triples enumerated'''
+    from valjean.eponine.browser import Browser
+    queries = list(exh_queries())
+    glob = {'g': 42}
+    cases = []
+    count = 0
+    nlists = 0
+    offset = ctx.seed % stride if stride > 1 else 0
+    for num, spec in enumerate(exh_lists(maxlen)):
+        if stride > 1 and len(spec) == maxlen and num % stride != offset:
+            continue
+        nlists += 1
+        for dk in ('results', 'data'):
+            items = []
+            for pos, (va, vb) in enumerate(spec):
+                dic = {}
+                if va is not None:
+                    dic['a'] = ONES[pos] if va == 1 else va
+                if vb is not None:
+                    dic['b'] = ONES[(pos + 1) % 4] if vb == 1 else vb
+                dic[dk] = [pos]
+                items.append(dic)
+            datas = [it[dk] for it in items]
+            br = Browser(items, data_key=dk, global_vars=glob)
+            packed = 0
+            for k, (incl, excl, kwargs) in enumerate(queries):
+                count += 1
+                want = [pos for pos, it in enumerate(items)
+                        if all(key in it and it[key] == val for key, val in kwargs.items())
+                        and all(key in it for key in incl) and not any(key in it for key in excl)]
+                try:
+                    sub = br.filter_by(include=incl, exclude=excl, **kwargs)
+                    ids = [next((p for p, d in enumerate(datas) if d is it.get(dk)), -1) for it in sub.content]
+                    good = (all(i >= 0 for i in ids) and ids == sorted(set(ids))
+                            and all(it.get('index') == j and type(it.get('index')) is int
+                                    for j, it in enumerate(sub.content))
+                            and sub.data_key == dk and sub.globals == glob)
+                    mask = sum(1 << i for i in ids) if good else 16
+                    if not good or ids != want:
+                        case = {'exhaustive': True, 'items': [list(map(repr, it.items())) for it in items],
+                                'dk': dk, 'include': incl, 'exclude': excl, 'query': repr(kwargs)}
+                        ctx.oracle_failure(f'filter_by selects positions {ids} (well-formed: {good}), a direct '
+                                           f'scan selects {want} :: {case}', case, key='exhaustive-filter')
+                except Exception as exc:  # noqa
+                    mask = 17
+                    case = {'exhaustive': True, 'items': [list(map(repr, it.items())) for it in items],
+                            'dk': dk, 'include': incl, 'exclude': excl, 'query': repr(kwargs)}
+                    ctx.oracle_failure(f'filter_by raises {type(exc).__name__} :: {case}', case,
+                                       key='exhaustive-raises-' + type(exc).__name__)
+                packed |= mask << (5 * k)
+            zitems = clist([clist([f'({cz(EXH_KEYS[key])}, '
+                                   + (f'(U {cz(val[0])})' if key == dk else
+                                      '(H 1%Z)' if val == 1 else '(H 1000000%Z)') + ')'
+                                   for key, val in it.items()]) for it in items])
+            cases.append(({'exhaustive': True, 'items': [list(map(repr, it.items())) for it in items], 'dk': dk},
+                          f'({zitems}, {cz(EXH_KEYS[dk])}, {packed}%Z)'))
+    size = 60
+    for k in range(0, len(cases), size):
+        chunk = cases[k:k + size]
+        shards.append(('exh', chunk,
+                       'Definition cases : list (list zitem * Z * Z) :=\n '
+                       + clist([c[1] for c in chunk]).replace('; ([', ';\n ([')
+                       + '.\nEval vm_compute in bad_indices (map check_exh cases).'))
+    ctx.count('exhaustive_lists', nlists)
+    ctx.count('exhaustive_filter_calls', count)
+    return count, nlists
+
+
 def coq_case(step):
     _case, zop, (cnt, dk, glob), res = step
     return f'({cnt}, {dk}, {glob}, {zop}, {res})'
@@ -550,15 +650,34 @@ def run(ctx):
     shards = []
     for k in range(0, len(steps), shard_size):
         chunk = steps[k:k + shard_size]
-        shards.append('Definition cases : list (list zitem * Z * zitem * zop * res obs) :=\n '
-                      + clist([coq_case(s) for s in chunk]).replace('; (', ';\n (')
-                      + '.\nEval vm_compute in bad_indices (map check_case cases).')
-    outs = common.coq_eval(ctx.pid, IMPORTS, shards)
-    for k, out in enumerate(outs):
+        shards.append(('rand', chunk,
+                       'Definition cases : list (list zitem * Z * zitem * zop * res obs) :=\n '
+                       + clist([coq_case(s) for s in chunk]).replace('; (', ';\n (')
+                       + '.\nEval vm_compute in bad_indices (map check_case cases).'))
+    # exhaustive small scope: quick = every list of length <= 3, thorough = length <= 4
+    # (quick: complete to length 2 plus every 4th list of length 3, rotating with the seed)
+    quick = ctx.tier == 'quick'
+    maxlen = 3 if quick else 4
+    ncalls, nlists = run_exhaustive(ctx, maxlen, 4 if quick else 1, shards)
+    ctx.extra['exhaustive'] = True
+    ctx.extra['exhaustive_bound'] = (
+        ('complete for length <= 2, plus a 1/4 slice (by seed) of length 3: ' if quick else '')
+        + f'all item lists of length <= {2 if quick else maxlen} over keys a, b with values absent / 1 (as 1, 1.0, True by '
+        f'position) / "x" ({nlists} lists) x data key in (results, data) x all 256 queries (per key: absent / '
+        f'True / "x" / a value no item has; include and exclude any subset of the keys): {ncalls} filter_by '
+        f'calls, each checked by the direct scan and by the model (check_exh)')
+    ctx.rule += '; EXHAUSTIVE: ' + ctx.extra['exhaustive_bound']
+    outs = common.coq_eval(ctx.pid, IMPORTS, [sh[2] for sh in shards])
+    for (tag, chunk, _), out in zip(shards, outs):
         for i in common.parse_nat_list(out):
-            step = steps[k * shard_size + i]
-            ctx.mismatch(f'step {step[1][:200]}: implementation observed {step[3][:300]}',
-                         {'case': step[0], 'step': step[1], 'state': step[2], 'impl': step[3]})
+            if tag == 'rand':
+                step = chunk[i]
+                ctx.mismatch(f'step {step[1][:200]}: implementation observed {step[3][:300]}',
+                             {'case': step[0], 'step': step[1], 'state': step[2], 'impl': step[3]})
+            else:
+                ctx.mismatch(f'exhaustive stream: some query on {chunk[i][0]} is answered differently by the model',
+                             chunk[i][0])
+    ctx.extra['exhaustive_model_cases'] = sum(len(sh[1]) for sh in shards if sh[0] == 'exh')
     ctx.extra['model_steps_compared'] = len(steps)
     ctx.assumptions = ['Python == on the generated values is the ground truth of the oracle (direct scan)',
                        'values are encoded for the model by ==-class (hashable) or identity (unhashable)',
